@@ -249,6 +249,35 @@ def declaration_changes(source_reg, dreg):
                 o = oldf.get(f["py"])
                 if o is not None and (o["type"] != f["type"] or repr(o["default"]) != repr(f["default"])):
                     out.append("input-field:%s.%s" % (t["name"], f["name"]))
+            # the CONFIGURED python name (the key resolvers see) of a field that the derivation kept or only renamed
+            # (camel-case transform: GraphQL name snake -> camel, python name untouched)
+            byname = {}
+            for f in src["fields"]:
+                byname.setdefault(f["name"], f)
+                byname.setdefault(camel(f["name"]), f)
+            for f in t["fields"]:
+                o = byname.get(f["name"])
+                if o is not None and o["py"] != f["py"]:
+                    out.append("python-name:%s.%s:%r->%r" % (t["name"], f["name"], o["py"], f["py"]))
+    return out
+
+
+def camel(name):
+    """snake_case -> camelCase, written out here (not imported from the code under test)"""
+    parts = name.split("_")
+    return parts[0] + "".join(x[:1].upper() + x[1:] for x in parts[1:])
+
+
+def spec_changes(specs, dspecs_raw):
+    """python names of the arguments of the fields a derivation kept (matched by position; none of the derivations here
+    reorders, adds or removes arguments)"""
+    out = []
+    for i, (sp, dsp) in enumerate(zip(specs, dspecs_raw)):
+        if dsp is None or len(sp) != len(dsp):
+            continue
+        for a, b in zip(sp, dsp):
+            if b["name"] in (a["name"], camel(a["name"])) and a["py"] != b["py"]:
+                out.append("arg-python-name:f%d.%s:%r->%r" % (i, b["name"], a["py"], b["py"]))
     return out
 
 
@@ -277,6 +306,112 @@ def make_derived_world(World, src, schema, reg, specs):
     return DerivedWorld()
 
 
+def check_derived(ctx, C07, sid, world, reg, specs, types, in_names, plan, derived, rng, per_type, max_groups, all_args=False):
+    """one derived schema: (2) what it declares for the elements the derivation was not entitled to change, (3) the whole
+    correspondence + direct oracle against ITS OWN declaration, with the source's values in the stream"""
+    label = plan_label(plan)
+    ctx.stat("history:%s" % label)
+    hist = {"source_reg": U.reg_to_jsonable(reg), "source_specs": [C07.spec_wire(sp) for sp in specs], "plan": plan}
+    n_before = len(ctx.found)
+    declared = reg_from_schema(derived)
+    dspecs_raw = specs_from_schema(derived, len(specs))
+    for ch in declaration_changes(reg, declared) + spec_changes(specs, dspecs_raw):
+        ctx.fail("derivation-changed-declaration:%s" % ch.split(":")[0],
+                 "a derived schema silently changed what an untouched element declares (%s)" % ch,
+                 {"check": "declaration", "history": hist, "change": ch})
+    dreg = reference_reg(reg, declared)
+    if not premise_ok(dreg, dspecs_raw):
+        # a declared default (a python value written for the SOURCE type) mentions a field the derived schema hides:
+        # the derived schema violates RegOK/ArgsOK (defaults must conform), the statement's premise - not an input of this check
+        ctx.stat("history:premise-fails(stale declared default):%s" % label)
+    else:
+        dspecs = [sp if sp is not None else [] for sp in dspecs_raw]
+        dworld = make_derived_world(C07.World, world, derived, dreg, dspecs)
+        dnames = [t["name"] for t in dreg["types"]]
+        dtypes = [t for t in types if U.ty_base(t) in dnames]
+        groups = []
+        for si, sp in enumerate(dspecs):
+            if dspecs_raw[si] is None:
+                continue
+            prim = [a for a in sp if a["name"] == "x"]
+            if prim and (all_args or U.ty_base(prim[0]["type"]) in in_names or rng.random() < 0.3):
+                groups += C07.groups_for_arg(dreg, si, prim[0], rng, per_type, 2, value_regs=(reg,))
+        groups = C07.select_groups(groups, rng, max_groups)
+        # (3) the derived schema is checked against ITS OWN declaration; values of the source schema are in the stream
+        C07.run_world(ctx, dworld, dreg, "hist:%s:%s" % (sid, label), dtypes, dspecs, groups, per_type, 2, 0,
+                      value_regs=(reg,), extras=False)
+    for f in ctx.found[n_before:]:
+        f["detail"]["history"] = hist
+        f["signature"] = f["signature"] + ":after:" + label
+
+
+def strip_defaults(reg):
+    """the same registry without declared input-field defaults (so that no derivation can be refused by schema validation
+    because of a default: a derivation that rewrites enum internal values must then show at the RESOLVER)"""
+    return {"types": [dict(t, fields=[dict(f, default=None) for f in t["fields"]]) if t["kind"] == "input" else t for t in reg["types"]]}
+
+
+DET_PLANS = [["extend-unrelated"], ["clone"], ["identity-visibility"], ["extend-unrelated", "clone"], ["camel"], ["camel", "extend-unrelated"],
+             ["extend-enum"], ["extend-input"], ["hide-type"]]
+
+
+def det_plan(schema, steps, k):
+    """the derivation plan of DET_PLANS entry `steps` with every choice fixed (k-th candidate, sorted by name)"""
+    from py_gql.schema import EnumType, InputObjectType
+    plan = []
+    for step in steps:
+        st = {"op": step}
+        if step == "extend-enum":
+            enums = sorted(n for n, t in schema.types.items() if isinstance(t, EnumType) and not n.startswith("__"))
+            st["type"] = enums[k % len(enums)]
+        elif step == "extend-input":
+            ins = sorted(n for n, t in schema.types.items() if isinstance(t, InputObjectType))
+            st["type"] = ins[k % len(ins)]
+        elif step == "hide-type":
+            st["type"] = "Even"            # a custom scalar: enums and input objects all stay
+        elif step == "extend-unrelated":
+            st["n"] = len(plan)
+        plan.append(st)
+    return plan
+
+
+def det_probe(ctx, C07):
+    """DETERMINISTIC block (same in every run, own fixed PRNG): the fixed source WITHOUT declared defaults is built and used,
+    then EVERY derivation kind of DET_PLANS is applied once with fixed choices, its declaration is compared (enum internal values,
+    python names of input fields and arguments, types/defaults of kept fields) and a fixed set of requests is sent through it
+    (every enum / input type as argument of a field with a recording resolver)."""
+    import random
+    rng = random.Random(20260924)
+    reg = strip_defaults(history_source(snake_registry(U.fixed_registry())))
+    names = [t["name"] for t in reg["types"]]
+    in_names = [t["name"] for t in reg["types"] if t["kind"] == "input"]
+    en_names = [n for n in names if U.reg_get(reg, n)["kind"] == "enum"]
+    types = [N(n) for n in en_names] + [L(NN(N(n))) for n in en_names] + [N(n) for n in in_names]
+    # no argument default mentions an enum value either (an Int default and a python-named second argument stay)
+    specs = [[C07.arg("x", t)] for t in types]
+    specs[0] = [C07.arg("x", types[0]), C07.arg("y", N("Int"), [9], "y_py")]
+    specs[-1] = [C07.arg("y_arg", L(N("Int")), None, "y_py"), C07.arg("x", types[-1])]
+    try:
+        world = C07.World(reg, specs, [])
+    except Exception as e:  # noqa
+        ctx.fail("schema-build:%s" % type(e).__name__, "registry could not be built as a py_gql schema",
+                 {"reg": U.reg_to_jsonable(reg), "error": str(e)[:300]}, kind="correspondence")
+        return
+    use_world(world, reg)
+    for k, steps in enumerate(DET_PLANS):
+        if ctx.time_left() < 10:
+            ctx.notes.append("history: deterministic probe stopped before %s (time)" % "+".join(steps))
+            break
+        try:
+            plan = det_plan(world.schema, steps, k)
+            derived = apply_plan(world.schema, plan)
+        except Exception as e:  # noqa
+            ctx.stat("history:derivation-refused:det:%s:%s" % ("+".join(steps), type(e).__name__))
+            continue
+        check_derived(ctx, C07, "det-nodefaults", world, reg, specs, types, in_names, plan, derived, rng, 2, 40, all_args=True)
+
+
+
 def run(ctx, C07):
     rng = ctx.rng
     quick = ctx.tier == "quick"
@@ -287,6 +422,7 @@ def run(ctx, C07):
     neutral = [["extend-unrelated"], ["clone"], ["identity-visibility"], ["extend-unrelated", "clone"]]
     plans = [["hide-fields"], ["camel"], ["setter"], ["camel", "hide-fields"], ["hide-fields", "setter"], ["hide-type"], ["clone", "hide-fields"],
              ["hide-fields", "hide-fields"], ["extend-enum"], ["extend-input"], ["extend-unrelated", "hide-fields"], ["camel", "extend-unrelated"]]
+    det_probe(ctx, C07)
     for sid, reg in sources:
         if ctx.time_left() < (12 if quick else 60):
             ctx.notes.append("history: stopped before %s (time)" % sid)
@@ -317,40 +453,8 @@ def run(ctx, C07):
                     break
             if derived is None:
                 continue
-            label = plan_label(plan)
-            ctx.stat("history:%s" % label)
-            hist = {"source_reg": U.reg_to_jsonable(reg), "source_specs": [C07.spec_wire(sp) for sp in specs], "plan": plan}
-            n_before = len(ctx.found)
-            declared = reg_from_schema(derived)
-            for ch in declaration_changes(reg, declared):
-                ctx.fail("derivation-changed-declaration:%s" % ch.split(":")[0],
-                         "a derived schema silently changed what an untouched element declares (%s)" % ch,
-                         {"check": "declaration", "history": hist, "change": ch})
-            dreg = reference_reg(reg, declared)
-            dspecs_raw = specs_from_schema(derived, len(specs))
-            if not premise_ok(dreg, dspecs_raw):
-                # a declared default (a python value written for the SOURCE type) mentions a field the derived schema hides:
-                # the derived schema violates RegOK/ArgsOK (defaults must conform), the statement's premise - not an input of this check
-                ctx.stat("history:premise-fails(stale declared default):%s" % label)
-                continue
-            dspecs = [sp if sp is not None else [] for sp in dspecs_raw]
-            dworld = make_derived_world(C07.World, world, derived, dreg, dspecs)
-            dnames = [t["name"] for t in dreg["types"]]
-            dtypes = [t for t in types if U.ty_base(t) in dnames]
-            groups = []
-            for si, sp in enumerate(dspecs):
-                if dspecs_raw[si] is None:
-                    continue
-                prim = [a for a in sp if a["name"] == "x"]
-                if prim and (U.ty_base(prim[0]["type"]) in in_names or rng.random() < 0.3):
-                    groups += C07.groups_for_arg(dreg, si, prim[0], rng, 4 if quick else 8, 2, value_regs=(reg,))
-            groups = C07.select_groups(groups, rng, 150 if quick else 400)
-            # (3) the derived schema is checked against ITS OWN declaration; values of the source schema are in the stream
-            C07.run_world(ctx, dworld, dreg, "hist:%s:%s" % (sid, label), dtypes, dspecs, groups, 4 if quick else 8, 2, 0,
-                          value_regs=(reg,), extras=False)
-            for f in ctx.found[n_before:]:
-                f["detail"]["history"] = hist
-                f["signature"] = f["signature"] + ":after:" + label
+            check_derived(ctx, C07, sid, world, reg, specs, types, in_names, plan, derived, rng,
+                          4 if quick else 8, 150 if quick else 400)
         # (4) and the source again, against its own declaration
         groups = []
         for si, sp in enumerate(specs):
